@@ -119,7 +119,7 @@ def dtype_out(ctx, R="R-C03-dtype-out"):
             ctx.check(ok, R, f, a, "%s allocates / derives its result with the utterance's dtype" % name, "%s builds its result as %s" % (name, astq.text(a.value)[:80]))
         for r in astq.returns_of(f):
             ctx.check(astq.is_name(r.value, "coeffs"), R, f, r, "%s returns that array" % name, "%s returns %s" % (name, astq.text(r.value)))
-        ctx.check("self.num_coeffs" in " ".join(astq.text(a.value) for a in allocs), R, f, allocs[0], "%s results have num_coeffs columns" % name)
+        ctx.check("self.num_coeffs" in " ".join(astq.text(a.value) for a in allocs), R, f, allocs[0], "%s results have num_coeffs columns" % name, structural=True)
 
 
 def _dtype_class(e, sig):
@@ -257,10 +257,10 @@ def prep(ctx, R="R-C03-prep"):
             if is_centered == (style == "centered"):
                 hit = r
         ctx.check(hit is not None and astq.text(hit.value).replace(" ", "") == want, R, init, hit if hit is not None else lp,
-                  "%s style: filters are rolled by %s" % (style, want[len("np.roll(filt,"):-1]), "%s roll is %s" % (style, astq.text(hit.value) if hit is not None else None))
+                  "%s style: filters are rolled by %s" % (style, want[len("np.roll(filt,"):-1]), "%s roll is %s" % (style, astq.text(hit.value) if hit is not None else None), structural=True)
     mids = [n for n in ast.walk(lp) if isinstance(n, ast.Assign) and astq.is_name(n.targets[0], "mid_samp")]
     ctx.check(len(mids) == 1 and astq.eq_text(mids[0].value, "(left_samp+right_samp)//2"), R, init, mids[0] if mids else MISSING(lp),
-              "the centre of a filter's support is (left + right) // 2")
+              "the centre of a filter's support is (left + right) // 2", structural=True)
     # energy impulse
     en = [n for n in init.body_nodes() if isinstance(n, ast.If) and astq.text(n.test) == "include_energy"]
     ctx.need(len(en) == 1, R, "energy branch not found in SI __init__")
